@@ -333,7 +333,8 @@ class Interp(object):
                 return self.builtins[name](self, *args, **kwargs)
             if name == "isinstance":
                 obj, t = args
-                ts = t if isinstance(t, tuple) else (t,)
+                is_marker = lambda x: isinstance(x, tuple) and len(x) == 2 and x[0] == "builtin"
+                ts = (t,) if is_marker(t) or not isinstance(t, tuple) else t
                 pyts = []
                 for x in ts:
                     if isinstance(x, tuple) and x[0] == "builtin" and x[1] in TYPE_NAMES:
